@@ -77,6 +77,46 @@ func buildTree(code []int) (*newick.Node, []*newick.Node) {
 	return root, nodes
 }
 
+// buildSlabTree builds the same tree with all nodes kept in ONE slice (children first, then
+// their parent) and every Children slice a sub-slice of it with spare capacity behind it: an
+// append to a Children slice would land in a sibling's storage.
+func buildSlabTree(code []int) (*newick.Node, []*newick.Node) {
+	n := len(code)
+	// children lists per node (pre-order numbering)
+	kids := make([][]int, n)
+	pos := 0
+	var rec func() int
+	rec = func() int {
+		i := pos
+		pos++
+		for k := 0; k < code[i]; k++ {
+			kids[i] = append(kids[i], rec())
+		}
+		return i
+	}
+	rec()
+	nodes := make([]*newick.Node, n)
+	for i := range nodes {
+		nodes[i] = &newick.Node{Name: fmt.Sprint("n", i), Distance: float64(i)}
+	}
+	// slab: the child lists of all nodes laid out one after another, followed by the root
+	slab := make([]*newick.Node, 0, n+1)
+	start := make([]int, n)
+	for i := 0; i < n; i++ {
+		start[i] = len(slab)
+		for _, k := range kids[i] {
+			slab = append(slab, nodes[k])
+		}
+	}
+	slab = append(slab, nodes[0])
+	for i := 0; i < n; i++ {
+		if len(kids[i]) > 0 {
+			nodes[i].Children = slab[start[i] : start[i]+len(kids[i])] // cap extends over the rest of the slab
+		}
+	}
+	return nodes[0], nodes
+}
+
 func refPre(n *newick.Node, out *[]*newick.Node) {
 	*out = append(*out, n)
 	for _, c := range n.Children {
@@ -192,7 +232,17 @@ func runC19(r *core.Run) {
 		},
 		func(c c19Tree) core.Outcome {
 			root, nodes := buildTree(c.Code)
-			return checkTraversal(root, nodes, fmt.Sprint("tree ", c.Code))
+			out := checkTraversal(root, nodes, fmt.Sprint("tree ", c.Code))
+			if out.Fail != "" {
+				return out
+			}
+			root, nodes = buildSlabTree(c.Code)
+			o2 := checkTraversal(root, nodes, fmt.Sprint("tree ", c.Code, " with all Children slices cut from one slab (spare capacity behind each)"))
+			if o2.Fail != "" {
+				return o2
+			}
+			out.Evals += o2.Evals
+			return out
 		})
 
 	core.Clause(r, "no-recursion", core.Opts{Serial: true, Rule: "a chain of 10^6 nodes traversed in a subprocess whose goroutine stack is capped at 16 MiB (debug.SetMaxStack): any recursion that is as deep as the tree overflows, an explicit stack does not; order checked against the chain itself; non-trivial = all"},
